@@ -58,6 +58,7 @@ type c20Obs struct {
 	panicked string
 	events   int
 	wire     []string
+	dup      []string // blocks transmitted twice for one request
 }
 
 // c20World builds the DAG and the roots the requests ask for.
@@ -176,6 +177,38 @@ func c20Run(cfg vsched.Config, cs c20Case, only int) (*c20Obs, *vsched.Sched) {
 			o.reqs = append(o.reqs, x)
 		}
 		o.store = strings.Join(qs.Keys(), ",")
+		sentFor := map[string]int{}
+		for _, w := range f.Net.Wire {
+			if w.From != r.ID {
+				continue
+			}
+			inMsg := map[string]bool{}
+			for _, b := range w.Msg.Blocks() {
+				inMsg[b.Cid().KeyString()] = true
+			}
+			// attribute a block to a request only if that request alone lists it present in this message
+			listed := map[string][]string{}
+			for _, rsp := range w.Msg.Responses() {
+				if md, ok := rsp.Metadata().(gsmsg.GraphSyncLinkMetadata); ok {
+					seen := map[string]bool{}
+					for _, e := range md.RawMetadata() {
+						k := e.Link.KeyString()
+						if e.Action == graphsync.LinkActionPresent && inMsg[k] && !seen[k] {
+							seen[k] = true
+							listed[k] = append(listed[k], harness.ShortID(rsp.RequestID()))
+						}
+					}
+				}
+			}
+			for k, rs := range listed {
+				if len(rs) == 1 {
+					sentFor[rs[0]+"/"+k]++
+					if sentFor[rs[0]+"/"+k] == 2 {
+						o.dup = append(o.dup, rs[0])
+					}
+				}
+			}
+		}
 		for _, w := range f.Net.Wire {
 			if w.From == r.ID {
 				var parts []string
@@ -201,6 +234,9 @@ func c20Judge(cs c20Case, o *c20Obs) *core.Violation {
 	}
 	if o.panicked != "" {
 		return v("panic", o.panicked)
+	}
+	if len(o.dup) > 0 {
+		return v("block-transmitted-twice-within-a-request", fmt.Sprintf("the responder sent the same block twice for request(s) %v", o.dup))
 	}
 	union := map[string]bool{}
 	for i := 0; i < cs.N; i++ {
